@@ -39,9 +39,10 @@ ASSUMPTIONS = [
     'function calls are typed only for the argument dtypes Eval.apply_func implements',
     'registry snapshot = live registries is re-proved on every run (Proofs/RegistryTie.v); the snapshot lists an '
     'aggregate\'s output type as instantiated on operands of the declared input types',
-    'sweeps: exceptions other than TypeError/AttributeError (ValueError from parse_date/maxwidth, IndexError from splitcomp/'
-    'grepn, re.error, decimal.InvalidOperation, ZeroDivisionError of date_bin with a zero stride, NotImplementedError of '
-    'bool(Inventory)) are counted in the evidence but are not type errors in the sense of the property',
+    'sweeps: ANY exception escaping the execution of an accepted query is reported, except the value errors listed per function '
+    'in c04_sweeps.TOLERATED (parse_date on text that is not a date, maxwidth width < 5, splitcomp/grepn index out of range or '
+    'empty separator, invalid regular expressions, round beyond the context precision, date_bin with a zero stride, '
+    'account_sortkey on text that is not an account), which are counted in the evidence',
     'sweep oracle, collections by kind: set/frozenset interchangeable, list/tuple interchangeable, a dict under the marker '
     'subclass Metadata; a structured type (open, close) announces the beancount directive class of the same name',
     'set-typed sample values hold str elements only (the set renderer measures len() of the elements)',
@@ -500,6 +501,17 @@ def run(tier, rng):
             other_exc[k] = other_exc.get(k, 0) + v
         for f in r['fails']:
             in_fail.setdefault(f'in-unchecked:right={r["right"]}:{f["class"]}', []).append((r, f))
+    # ---- sweep 1c: object column against typed operands / casts
+    roc = core.pmap(S.run_objcast_case, S.objcast_cases())
+    oc_status = {}
+    for r in roc:
+        oc_status[r['status']] = oc_status.get(r['status'], 0) + 1
+        for k, v in r['other_exc'].items():
+            other_exc[k] = other_exc.get(k, 0) + v
+        for f in r['fails']:
+            sig = f'{r["sig"]}:{f["class"]}'
+            if sig not in fail_by_sig:
+                fail_by_sig[sig] = (r, f)
     for sig, (r, f) in fail_by_sig.items():
         if r['sig'].startswith(('In(', 'NotIn(')):
             continue            # reported by sweep 1b under the in-unchecked signatures
@@ -580,6 +592,9 @@ def run(tier, rng):
         'B_aggregate_cases': len(acases), 'B_histogram': dict(sorted(agg_hist.items())),
         'sweep1_overload_instances': len(s1), 'sweep1_status': status, 'sweep1b_pairs': len(sin),
         'sweep1_cells_checked': s1cells, 'sweep1_rows': sum(r['rows'] for r in r1) + sum(r['rows'] for r in rin),
+        'sweep1c_objcast_queries': len(roc), 'sweep1c_status': oc_status, 'sweep1c_rows': sum(r['rows'] for r in roc),
+        'sweep1c_object_value_kinds': sorted({type(v).__name__ for v in S.OBJ_VALUES}),
+        'sweep2_metadata_value_kinds': S.META_KINDS,
         'sweep1_null_rows': sum(r['null_rows'] for r in r1), 'sweep1_renders': sum(r['renders'] for r in r1),
         'sweep2_ledgers': len(lcases), 'sweep2_ledger_sizes': sizes, 'sweep2_queries': lq, 'sweep2_cells_checked': lcells,
         'sweep2_rejected_by_compiler': lrej, 'sweep2_query_kinds': ltags, 'sweep2_rows_per_table': ltables,
